@@ -617,7 +617,7 @@ pub fn scenario(name: &str, params: &Value) -> Scenario {
                 sys.params = params.clone();
                 sys.m.check_client_acks = true;
                 let mode = if uniform {
-                    [WriteMode::OneByte, WriteMode::PendingEach][chz.choose(2)]
+                    [WriteMode::OneByte, WriteMode::PendingEach, WriteMode::HalfThenPending][chz.choose(3)]
                 } else {
                     WriteMode::Explore
                 };
